@@ -189,7 +189,7 @@ def gen_session(rng, tier, profile="mixed"):
     pw = rng.choice(["secret", "secret", "secret", "", None])
     if ctype == "k" and (pw is None or rng.random() < 0.9):
         pw = "secret"
-    cert = 1 if rng.random() < 0.1 else 0
+    cert = 1 if rng.random() < (0.3 if policy else 0.1) else 0
     ops.append("new %s %s %d %s %d" % (h(jid), "-" if pw is None else h(pw), flags, ctype, cert))
     ctype0 = ctype
     if rng.random() < 0.15:
@@ -315,7 +315,7 @@ def one_stream(s, rng, flags, ctype, jid, pw, cert, sm_resumable):
     mechs = rng.sample(ALL_MECHS, rng.randrange(0, 6))
     if rng.random() < 0.5:
         mechs = rng.choice([["PLAIN"], ["SCRAM-SHA-1", "PLAIN"], ["DIGEST-MD5"], ["SCRAM-SHA-256-PLUS", "SCRAM-SHA-256"],
-                            ["ANONYMOUS"], ["EXTERNAL", "PLAIN"], []])
+                            ["ANONYMOUS"], ["EXTERNAL", "PLAIN"], ["EXTERNAL", "PLAIN"], ["PLAIN", "EXTERNAL", "ANONYMOUS"], []])
     if rng.random() < 0.07:
         # the stream header arrives, the features do not (in time): the features time-out decides
         send(s.header())
